@@ -211,17 +211,26 @@ fn law_cases(w: &mut impl Write, id: &mut usize, rng: &mut Rng, count: usize) {
             }
             "reflect-named" => {
                 let off = rng.range(-2.0, 2.0);
-                let j = rng.below(3);
-                ttree = match j { 0 => ReflectX { shape: stree.clone(), offset: off }.into(), 1 => ReflectY { shape: stree.clone(), offset: off }.into(), _ => ReflectZ { shape: stree.clone(), offset: off }.into() };
-                inv = Box::new(move |mut p| { p[j] = 2.0 * off as f64 - p[j]; Some(p) });
-                fwd = Some(Box::new(move |mut p| { p[j] = 2.0 * off as f64 - p[j]; p }));
+                let j = rng.below(4);
+                if j == 3 {
+                    // the named reflection about the line x = y, moved along its unit normal (-1, 1, 0) / sqrt 2 by `off`
+                    ttree = fidget_shapes::ReflectXY { shape: stree.clone(), offset: off }.into();
+                    let refl = move |p: [f64; 3]| { let h = std::f64::consts::FRAC_1_SQRT_2; let n = [-h, h, 0.0]; let d = n[0] * p[0] + n[1] * p[1] - off as f64; [p[0] - 2.0 * d * n[0], p[1] - 2.0 * d * n[1], p[2]] };
+                    inv = Box::new(move |p| Some(refl(p)));
+                    fwd = Some(Box::new(refl));
+                } else {
+                    ttree = match j { 0 => ReflectX { shape: stree.clone(), offset: off }.into(), 1 => ReflectY { shape: stree.clone(), offset: off }.into(), _ => ReflectZ { shape: stree.clone(), offset: off }.into() };
+                    inv = Box::new(move |mut p| { p[j] = 2.0 * off as f64 - p[j]; Some(p) });
+                    fwd = Some(Box::new(move |mut p| { p[j] = 2.0 * off as f64 - p[j]; p }));
+                }
                 desc = format!("reflect-{j} offset {off}");
             }
             "rotate" | "rotate-named" => {
                 let named = kind == "rotate-named";
                 let j = rng.below(3);
                 let a = if named { let mut v = [0.0f32; 3]; v[j] = 1.0; v } else { random_axis(rng, k / 9) };
-                let angle = rng.range(-400.0, 400.0);
+                // every third case an exact multiple of a quarter turn, of either sign and beyond a full turn
+                let angle = if k % 3 == 0 { [-180.0f32, -270.0, -540.0, 90.0, 180.0, 270.0, -90.0, 360.0, -450.0, 630.0][(k / 3) % 10] } else { rng.range(-400.0, 400.0) };
                 let c = [rng.range(-2.0, 2.0), rng.range(-2.0, 2.0), rng.range(-2.0, 2.0)];
                 let center = Vec3::new(c[0], c[1], c[2]);
                 ttree = if named {
@@ -296,6 +305,46 @@ fn law_cases(w: &mut impl Write, id: &mut usize, rng: &mut Rng, count: usize) {
     }
 }
 
+/// Boxes and rectangles with corners at infinity (the usual way of writing half-spaces, slabs and infinite bars): a
+/// point is inside exactly when it lies strictly between the finite bounds
+fn unbounded_box_cases(w: &mut impl Write, id: &mut usize, rng: &mut Rng) {
+    for k in 0..48usize {
+        let mut lo = [rng.range(-3.0, 0.0), rng.range(-3.0, 0.0), rng.range(-3.0, 0.0)];
+        let mut hi = [lo[0] + rng.range(1.0, 4.0), lo[1] + rng.range(1.0, 4.0), lo[2] + rng.range(1.0, 4.0)];
+        // which bounds are infinite: one digit per axis (0 none, 1 lower, 2 upper, 3 both)
+        let code = [1 + k % 3, (k / 3) % 4, (k / 12) % 4];
+        let rect = k % 2 == 1;
+        for a in 0..3 {
+            if code[a] & 1 != 0 { lo[a] = f32::NEG_INFINITY; }
+            if code[a] & 2 != 0 { hi[a] = f32::INFINITY; }
+        }
+        let tree: Tree = if rect {
+            fidget_shapes::Rectangle { lower: fidget_shapes::types::Vec2::new(lo[0], lo[1]), upper: fidget_shapes::types::Vec2::new(hi[0], hi[1]) }.into()
+        } else {
+            fidget_shapes::Box { lower: Vec3::new(lo[0], lo[1], lo[2]), upper: Vec3::new(hi[0], hi[1], hi[2]) }.into()
+        };
+        let naxes = if rect { 2 } else { 3 };
+        let pts: Vec<[f32; 3]> = (0..40).map(|_| [rng.range(-6.0, 6.0), rng.range(-6.0, 6.0), rng.range(-6.0, 6.0)]).collect();
+        let got = eval_tree(&tree, &pts);
+        let sign = |v: f32| -> i64 { if v.is_nan() { 5 } else if v < 0.0 { -1 } else if v > 0.0 { 1 } else { 0 } };
+        let want: Vec<i64> = pts.iter().map(|p| {
+            // signed distance to the nearest finite face, in the max norm
+            let mut m = f64::NEG_INFINITY;
+            for a in 0..naxes {
+                if lo[a].is_finite() { m = m.max(lo[a] as f64 - p[a] as f64); }
+                if hi[a].is_finite() { m = m.max(p[a] as f64 - hi[a] as f64); }
+            }
+            if m.abs() < 1.0e-3 { 0 } else if m < 0.0 { -1 } else { 1 }
+        }).collect();
+        let kind = "box-unbounded";
+        let j = json!({"ev": "law", "id": *id, "kind": kind, "term": ["law", kind], "desc": format!("{} {lo:?}..{hi:?}", if rect { "rectangle" } else { "box" }), "far": false,
+            "pts": pts.iter().map(|p| p.iter().map(|v| vharness::keys::bits(*v)).collect::<Vec<_>>()).collect::<Vec<_>>(),
+            "sign": got.iter().map(|v| sign(*v)).collect::<Vec<_>>(), "want": want, "panic": "", "margin": vec![0i64; pts.len()]});
+        writeln!(w, "{j}").unwrap();
+        *id += 1;
+    }
+}
+
 fn main() {
     let args: Vec<String> = std::env::args().collect();
     let quick = args[2] == "quick";
@@ -338,6 +387,7 @@ fn main() {
         id += 1;
     }
     law_cases(&mut w, &mut id, &mut rng, if quick { 450 } else { 4500 });
+    unbounded_box_cases(&mut w, &mut id, &mut rng);
     w.flush().unwrap();
     eprintln!("c16: {id} shapes");
 }
